@@ -35,18 +35,25 @@ type c1fail struct {
 // c1FailingArrangement searches the preferred recipes and then k random rearrangements of src
 // for one whose canonical form differs with class want.
 func c1FailingArrangement(p c1prog, want string, k int, seed uint64, pref []c1arr) (c1fail, bool) {
-	return c1failingArrangement(p, want, k, seed, pref, false, nil)
+	left := 1 << 30
+	return c1failingArrangement(p, want, k, seed, pref, false, nil, &left)
 }
 
 // with simplest=true all candidates are tried and the arrangement produced by the fewest kinds
 // of rewrite (sole-embedding wraps last) is returned.
 // With within != nil the class may be ANY known class, but the failure must be (part of) the
 // original one: every differing path and kind of difference occurs in `within`.
-func c1failingArrangement(p c1prog, want string, k int, seed uint64, pref []c1arr, simplest bool, within *c1fail) (c1fail, bool) {
+// left counts the evaluations still allowed (a deterministic budget: wall-clock limits would
+// make the verdict depend on the load of the machine).
+func c1failingArrangement(p c1prog, want string, k int, seed uint64, pref []c1arr, simplest bool, within *c1fail, left *int) (c1fail, bool) {
 	var best c1fail
 	bestCost := 1 << 30
 	src := p.src
-	base, ok := c1EvalTimeout([]string{src}, 5*time.Second)
+	if *left <= 0 {
+		return c1fail{}, false
+	}
+	*left--
+	base, ok := c1EvalTimeout([]string{src}, 20*time.Second)
 	if !ok || base.err != "" || base.canon == "_|_(eval)" {
 		return c1fail{}, false
 	}
@@ -77,7 +84,11 @@ func c1failingArrangement(p c1prog, want string, k int, seed uint64, pref []c1ar
 		if err != nil {
 			continue
 		}
-		res, ok := c1EvalTimeout(texts, 5*time.Second)
+		if *left <= 0 {
+			break
+		}
+		*left--
+		res, ok := c1EvalTimeout(texts, 20*time.Second)
 		if !ok || res.err != "" || res.canon == base.canon {
 			continue
 		}
@@ -272,16 +283,16 @@ func c1comprBody(d ast.Decl) *ast.StructLit {
 }
 
 // c1MinimiseProg returns a locally minimal program with a failing arrangement of class want.
-func c1MinimiseProg(p c1prog, want string, budget time.Duration, pref []c1arr) (c1prog, c1fail, bool) {
-	deadline := time.Now().Add(budget)
+func c1MinimiseProg(p c1prog, want string, evals int, pref []c1arr) (c1prog, c1fail, bool) {
+	left := evals
 	best, ok := c1FailingArrangement(p, want, 24, 1, pref)
 	if !ok {
 		return p, c1fail{}, false
 	}
 	orig := best
-	for changed := true; changed && time.Now().Before(deadline); {
+	for changed := true; changed && left > 0; {
 		changed = false
-		for n := 0; time.Now().Before(deadline); n++ {
+		for n := 0; left > 0; n++ {
 			cand, ok := c1edit(p.src, n)
 			if !ok {
 				break
@@ -291,7 +302,7 @@ func c1MinimiseProg(p c1prog, want string, budget time.Duration, pref []c1arr) (
 			}
 			q := p
 			q.src = cand
-			if f2, ok := c1failingArrangement(q, want, 12, 1, pref, false, &orig); ok {
+			if f2, ok := c1failingArrangement(q, want, 12, 1, pref, false, &orig, &left); ok {
 				p, best = q, f2
 				changed = true
 				n--
@@ -299,7 +310,8 @@ func c1MinimiseProg(p c1prog, want string, budget time.Duration, pref []c1arr) (
 		}
 	}
 	// finally the simplest arrangement that still fails
-	if f2, ok := c1failingArrangement(p, want, 60, 7, pref, true, &orig); ok {
+	left = 200
+	if f2, ok := c1failingArrangement(p, want, 60, 7, pref, true, &orig, &left); ok {
 		best = f2
 	}
 	return p, best, true
@@ -311,7 +323,7 @@ func c1Minimise(src string, r *Rng) {
 		want = strings.TrimSpace(src[len("//class="):i])
 		src = src[i+1:]
 	}
-	m, f, ok := c1MinimiseProg(c1prog{name: "min", stream: "gen", src: src}, want, 120*time.Second, nil)
+	m, f, ok := c1MinimiseProg(c1prog{name: "min", stream: "gen", src: src}, want, 200000, nil)
 	if !ok {
 		fmt.Println("no failing arrangement of class", want, "found")
 		return
